@@ -1,5 +1,7 @@
 (* Whatever sorts the Flattener drops ("undone" in front of a group), every take and every windowed
-   compute is handed exactly the order in effect at its position -- at any nesting depth. *)
+   compute is handed exactly the order in effect at its position -- at any nesting depth -- except
+   behind an aggregate inside a group body (finding F44: the code ends the sort at an aggregate only
+   outside of groups). *)
 From Coq Require Import List Bool Lia.
 From PV Require Import Model.Flatten.
 Import ListNotations.
@@ -10,6 +12,8 @@ Section Proofs.
   Notation flat := (flat key empty).
   Notation carried_spec := (carried_spec key empty).
   Notation carried_of := (carried_of key).
+  Notation tame := (tame key).
+  Notation has_agg := (has_agg key).
 
   Lemma carried_of_app a b : carried_of (a ++ b) = carried_of a ++ carried_of b.
   Proof. unfold Flatten.carried_of. apply flat_map_app. Qed.
@@ -19,49 +23,122 @@ Section Proofs.
   Lemma carried_of_win pt k o : carried_of (OWin pt k :: o) = (pt, k) :: carried_of o.
   Proof. reflexivity. Qed.
 
-  Theorem flat_carries_order_in_effect : forall fuel und part s p,
-    carried_of (fst (flat fuel und part s p)) = fst (carried_spec fuel part s p) /\
-    snd (flat fuel und part s p) = snd (carried_spec fuel part s p).
+  (* the last transform of the list is an aggregate *)
+  Definition is_agg (i : pitem key) : bool := match i with PAgg => true | _ => false end.
+  Fixpoint last_agg (p : list (pitem key)) : bool :=
+    match p with
+    | [] => false
+    | it :: r => match r with [] => is_agg it | _ => last_agg r end
+    end.
+  (* the one place where the carried sort AFTER the list differs from the specification inside the tame class:
+     a group body that ends in an aggregate (the group discards it) *)
+  Definition ends_agg (ing : bool) (p : list (pitem key)) : bool := ing && last_agg p.
+
+  Lemma last_agg_cons it r : r <> [] -> last_agg (it :: r) = last_agg r.
+  Proof. destruct r; [congruence | reflexivity]. Qed.
+
+  Lemma ends_agg_cons_false ing it r : is_agg it = false -> ends_agg ing (it :: r) = false -> ends_agg ing r = false.
   Proof.
-    induction fuel as [|f IH]; intros und part s p; [split; reflexivity|].
+    unfold ends_agg. destruct ing; [|reflexivity]. cbn [andb]. destruct r as [|x r']; [reflexivity|].
+    intros _ H. exact H.
+  Qed.
+
+  Lemma has_agg_last f p : has_agg (S f) p = false -> last_agg p = false.
+  Proof.
+    induction p as [|it r IH]; intro H; [reflexivity|].
+    cbn [Flatten.has_agg existsb] in H. apply orb_false_iff in H. destruct H as [H1 H2].
+    destruct r as [|x r'].
+    - cbn [last_agg]. destruct it; cbn [is_agg]; try reflexivity. discriminate.
+    - rewrite last_agg_cons by discriminate. apply IH. exact H2.
+  Qed.
+
+  (* PARTIAL (the full statement, without the `tame` hypothesis, is refuted below) *)
+  Theorem flat_carries_order_in_effect_partial : forall fuel und part s p,
+    tame fuel (in_group part) p = true ->
+    carried_of (fst (flat fuel und part s p)) = fst (carried_spec fuel part s p) /\
+    (ends_agg (in_group part) p = false -> snd (flat fuel und part s p) = snd (carried_spec fuel part s p)).
+  Proof.
+    induction fuel as [|f IH]; intros und part s p Ht; [cbn in Ht; discriminate|].
     destruct p as [|it rest]; [split; reflexivity|].
+    cbn [Flatten.tame] in Ht.
     cbn [Flatten.flat Flatten.carried_spec].
-    destruct it as [k| | | |ne body|body|body].
-    - destruct (IH und part k rest) as [H1 H2].
+    destruct it as [k| | | | |ne body|body|body].
+    - (* PSort *)
+      destruct (IH und part k rest Ht) as [H1 H2].
       destruct (flat f und part k rest) as [o s'] eqn:E. cbn [fst snd] in *.
-      split; [|exact H2]. rewrite carried_of_app.
-      destruct (und || existsb (is_ne_group key) rest); cbn; exact H1.
-    - destruct (IH und part s rest) as [H1 H2].
+      split.
+      + rewrite carried_of_app. destruct (und || existsb (is_ne_group key) rest); cbn; exact H1.
+      + intro He. apply H2. eapply ends_agg_cons_false; [|exact He]. reflexivity.
+    - (* PTake *)
+      destruct (IH und part s rest Ht) as [H1 H2].
       destruct (flat f und part s rest) as [o s'] eqn:E.
       destruct (carried_spec f part s rest) as [o2 s2] eqn:E2. cbn [fst snd] in *.
-      split; [|exact H2]. rewrite carried_of_take, H1. reflexivity.
-    - destruct (IH und part s rest) as [H1 H2].
+      split; [rewrite carried_of_take, H1; reflexivity|].
+      intro He. apply H2. eapply ends_agg_cons_false; [|exact He]. reflexivity.
+    - (* PWin *)
+      destruct (IH und part s rest Ht) as [H1 H2].
       destruct (flat f und part s rest) as [o s'] eqn:E.
       destruct (carried_spec f part s rest) as [o2 s2] eqn:E2. cbn [fst snd] in *.
-      split; [|exact H2]. rewrite carried_of_win, H1. reflexivity.
-    - apply IH.
-    - destruct (IH (if ne then true else und || existsb (is_ne_group key) rest) ne empty body) as [B1 _].
-      destruct (IH und part empty rest) as [H1 H2].
-      destruct (flat f (if ne then true else und || existsb (is_ne_group key) rest) ne empty body) as [ob sb] eqn:Eb.
+      split; [rewrite carried_of_win, H1; reflexivity|].
+      intro He. apply H2. eapply ends_agg_cons_false; [|exact He]. reflexivity.
+    - (* POther *)
+      destruct (IH und part s rest Ht) as [H1 H2]. split; [exact H1|].
+      intro He. apply H2. eapply ends_agg_cons_false; [|exact He]. reflexivity.
+    - (* PAgg *)
+      apply andb_true_iff in Ht. destruct Ht as [Hc Ht].
+      destruct (in_group part) eqn:Eg; cbn [negb orb] in Hc.
+      + (* inside a group: tame forces the aggregate to be the last transform of the body *)
+        destruct rest as [|x r']; [|discriminate].
+        split.
+        * destruct f; reflexivity.
+        * unfold ends_agg. cbn. discriminate.
+      + rewrite <- Eg in Ht. destruct (IH und part empty rest Ht) as [H1 H2]. rewrite Eg in H2. split; [exact H1|].
+        intros _. apply H2. reflexivity.
+    - (* PGroup *)
+      apply andb_true_iff in Ht. destruct Ht as [Htb Htr].
+      destruct (IH (if ne then true else und || existsb (is_ne_group key) rest) (Some ne) empty body Htb) as [B1 _].
+      destruct (IH und part empty rest Htr) as [H1 H2].
+      destruct (flat f (if ne then true else und || existsb (is_ne_group key) rest) (Some ne) empty body) as [ob sb] eqn:Eb.
       destruct (flat f und part empty rest) as [o s'] eqn:E.
-      destruct (carried_spec f ne empty body) as [ob2 sb2] eqn:Eb2.
+      destruct (carried_spec f (Some ne) empty body) as [ob2 sb2] eqn:Eb2.
       destruct (carried_spec f part empty rest) as [o2 s2] eqn:E2. cbn [fst snd] in *.
-      split; [|exact H2]. rewrite carried_of_app, B1, H1. reflexivity.
-    - destruct (IH (und || existsb (is_ne_group key) rest) part s body) as [B1 B2].
+      split; [rewrite carried_of_app, B1, H1; reflexivity|].
+      intro He. apply H2. eapply ends_agg_cons_false; [|exact He]. reflexivity.
+    - (* PWindow *)
+      apply andb_true_iff in Ht. destruct Ht as [Ht Htr]. apply andb_true_iff in Ht. destruct Ht as [Hc Htb].
+      destruct (IH (und || existsb (is_ne_group key) rest) part s body Htb) as [B1 B2].
+      assert (Hb : ends_agg (in_group part) body = false).
+      { unfold ends_agg. destruct (in_group part); [|reflexivity]. cbn [negb orb andb] in *.
+        destruct f as [|f']; [cbn in Hc; discriminate|].
+        apply has_agg_last with (f := f'). destruct (has_agg (S f') body); [discriminate|reflexivity]. }
+      specialize (B2 Hb).
       destruct (flat f (und || existsb (is_ne_group key) rest) part s body) as [ob sb] eqn:Eb.
       destruct (carried_spec f part s body) as [ob2 sb2] eqn:Eb2. cbn [fst snd] in *. subst sb2.
-      destruct (IH und part sb rest) as [H1 H2].
+      destruct (IH und part sb rest Htr) as [H1 H2].
       destruct (flat f und part sb rest) as [o s'] eqn:E.
       destruct (carried_spec f part sb rest) as [o2 s2] eqn:E2. cbn [fst snd] in *.
-      split; [|exact H2]. rewrite carried_of_app, B1, H1. reflexivity.
-    - apply IH.
+      split; [rewrite carried_of_app, B1, H1; reflexivity|].
+      intro He. apply H2. eapply ends_agg_cons_false; [|exact He]. reflexivity.
+    - (* PSub *)
+      destruct (IH und part s rest Ht) as [H1 H2]. split; [exact H1|].
+      intro He. apply H2. eapply ends_agg_cons_false; [|exact He]. reflexivity.
+  Qed.
+
+  (* a whole query (outside of any group): both the sorts handed out and the sort left in effect *)
+  Corollary flat_carries_order_in_effect_top : forall fuel und s p,
+    tame fuel false p = true ->
+    carried_of (fst (flat fuel und None s p)) = fst (carried_spec fuel None s p) /\
+    snd (flat fuel und None s p) = snd (carried_spec fuel None s p).
+  Proof.
+    intros fuel und s p Ht. destruct (flat_carries_order_in_effect_partial fuel und None s p Ht) as [H1 H2].
+    split; [exact H1 | apply H2; reflexivity].
   Qed.
 
   (* a pipeline without groups keeps every Sort transform *)
   Fixpoint plain (p : list (pitem key)) : bool :=
     match p with
     | [] => true
-    | PSort _ :: r | PTake :: r | PWin :: r | POther :: r => plain r
+    | PSort _ :: r | PTake :: r | PWin :: r | POther :: r | PAgg :: r => plain r
     | _ => false
     end.
 
@@ -94,6 +171,7 @@ Section Proofs.
         rewrite emitted_sorts_cons. exact IH.
       + specialize (IH f part s H ltac:(lia)). destruct (flat f false part s r) as [o s'] eqn:E. cbn [fst] in *.
         rewrite emitted_sorts_cons. exact IH.
+      + apply IH; [exact H | lia].
       + apply IH; [exact H | lia].
   Qed.
 End Proofs.
